@@ -642,7 +642,7 @@ static void DecodeEmulOneToTwo(Word Code) {
 
         /* transform 0(Rn) as Dest back to @Rn as Src: */
 
-        else if ((SrcParts.Mode == eModeRegDisp) && (DestParts.Val == 0)) {
+        else if ((SrcParts.Mode == eModeRegDisp) && !SrcParts.WasAbs && (DestParts.Val == 0)) {
             SrcParts.Mode = eModeIReg;
             SrcParts.Cnt  = 0;
         }
@@ -742,7 +742,7 @@ static void DecodeEmulOneToTwoX(Word Code) {
 
         /* transform 0(Rn) as Dest back to @Rn as Src: */
 
-        else if ((SrcParts.Mode == eModeRegDisp) && (DestParts.Val == 0)) {
+        else if ((SrcParts.Mode == eModeRegDisp) && !SrcParts.WasAbs && (DestParts.Val == 0)) {
             SrcParts.Mode = eModeIReg;
             SrcParts.Cnt  = 0;
         }
